@@ -87,12 +87,14 @@ claim("C02", "signer/verifier sibling agreement on SSA + value provenance (signe
       "Structural necessary condition for all cookies/edits/secrets: the MAC covers name, value and timestamp with identical roles on both sides; compare is hmac.Equal on complete decoded signatures; every non-empty cookie value derives from SignedValue; payloads decode only from Validate's value; the joined split cookie is what is validated; serialised sessions/CSRF flow only into Encrypt and only ciphertext is stored or signed. Level 'other'.",
       TRUST + " Not decided: the cryptography, ambiguity of unkeyed concatenation, base64 laxness, value-exact decoding over all edits.", "DESIGN.md §5 C02")
 
+claim("C10", "sibling agreement on SSA and types (encode/decode flags and ciphers, splitter/loader part naming, ticket encoder/decoders, struct tags) + path facts on the codec + reachability of a jar reader from Save + constant evaluation of the split threshold",
+      "PARTIAL: structural necessary conditions of the save/load round trip only — each store encodes and decodes with the same flag and cipher source and addresses its backend by the ticket id; EncodeSessionState/DecodeSessionState mirror each other; every SessionState field is serialised under a unique key; splitter and loader number parts identically, the loader joins in order onto a copy of part 0 named like the whole, chunks are consecutive; Save reads the presented jar and expires every presented session cookie it did not write; the split threshold is <= 4096 and every emitted cookie was measured against it; Clear sweeps; ticket encoder and decoders agree. The round trip as behaviour (all sizes, all field contents, boundary arithmetic) is NOT decided. Level 'other'.",
+      TRUST + " Not decided: msgpack/lz4/AES value semantics, byte arithmetic at the split boundary, part names for cookie names over 250 bytes, browser jar semantics, Redis.", "DESIGN.md §6 and §11.7")
+
 for i in range(2, 21):
     pid = "C%02d" % i
     if pid not in T:
         na(pid, "check not built yet in this round (design in DESIGN.md §5); will be claimed once its rules run green and are mutant-tested")
-T.pop("C10", None)
-na("C10", "value round trip over save histories and byte sizes: no structural necessary condition that is not already owned by C02/C18/C11 (DESIGN.md §6)")
 
 
 import re
